@@ -328,6 +328,49 @@ pub fn e2_jobs(prop: &str, tier: Tier) -> Vec<E2Job> {
                 jobs.push(E2Job { label: "batch plans, inner plans of <= 1 op".into(), scenarios: scen(&batch(1, true, 2), &[Mode::Dispatch], &[1]), bounds: b(1) });
             }
         }
+        "C14" => {
+            let panic_scen = |plans: &[Vec<Op>], modes: &[Mode], pairs: bool| -> Vec<Scenario> {
+                let mut v = Vec::new();
+                for p in plans {
+                    let info = PlanInfo::of(p);
+                    let mut choices: Vec<Vec<(usize, bool)>> = Vec::new();
+                    for n in &info.nodes {
+                        choices.push(vec![(n.id, false)]);
+                        if n.kind != crate::spec::Kind::Batch {
+                            choices.push(vec![(n.id, true)]);
+                        }
+                    }
+                    if pairs {
+                        for a in &info.nodes {
+                            for bn in &info.nodes {
+                                if a.id < bn.id {
+                                    choices.push(vec![(a.id, false), (bn.id, false)]);
+                                    if bn.kind != crate::spec::Kind::Batch {
+                                        choices.push(vec![(a.id, false), (bn.id, true)]);
+                                    }
+                                }
+                            }
+                        }
+                    }
+                    for c in choices {
+                        for m in modes {
+                            let mut s = Scenario::plain(p.clone(), *m, 2);
+                            s.panics = c.clone();
+                            v.push(s);
+                        }
+                    }
+                }
+                v
+            };
+            let dep_acc = acc(&[(&[], &[]), (&[], &[0]), (&[0], &[])]);
+            let depplans = |d| distinct_plans(&Profile::B { access: dep_acc.clone(), times: vec![3], unnamed: false, dup: false, pairs: false }, d, 1);
+            jobs.push(E2Job { label: "dependency/access plans x every single panicking system x {fetch, run}, then a clean dispatch".into(), scenarios: panic_scen(&depplans(if q { 2 } else { 3 }), &[Mode::Dispatch, Mode::Seq], false), bounds: b(if q { 2 } else { 3 }) });
+            jobs.push(E2Job { label: "3-op plans, single panicking system".into(), scenarios: panic_scen(&depplans(3).into_iter().filter(|p| p.len() == 3).collect::<Vec<_>>(), &[Mode::Dispatch], !q), bounds: b(if q { 1 } else { 2 }) });
+            jobs.push(E2Job { label: "thread-local and batch plans, single panicking system (incl. inside batches, thread-local)".into(), scenarios: panic_scen(&[tl(2), eb(1)].concat(), &[Mode::Dispatch, Mode::Seq], !q), bounds: b(if q { 1 } else { 2 }) });
+            if !q {
+                jobs.push(E2Job { label: "small batch plans with an outer system".into(), scenarios: panic_scen(&eb(2), &[Mode::Dispatch], false), bounds: b(1) });
+            }
+        }
         "C12" => {
             jobs.push(E2Job { label: "thread-local plans, <= 2 ops".into(), scenarios: scen(&tl(2), &[Mode::Dispatch, Mode::Par, Mode::Seq, Mode::Async], &[1, 2]), bounds: b(if q { 2 } else { 3 }) });
             jobs.push(E2Job { label: "thread-local plans, 3 ops".into(), scenarios: scen(&tl(3).into_iter().filter(|p| p.len() == 3).collect::<Vec<_>>(), &[Mode::Dispatch, Mode::Async], &[1]), bounds: b(if q { 1 } else { 2 }) });
@@ -352,7 +395,7 @@ pub fn run_e2(prop: &str, tier: Tier, budget: Duration, frag: &mut Frag) {
         let remaining = budget.saturating_sub(start.elapsed());
         let share = remaining / (njobs - k) as u32;
         let t0 = Instant::now();
-        let opts = ExploreOpts { bounds: job.bounds.clone(), all_points: false, deadline: t0 + share, max_execs: u64::MAX, keep_traces: 4, deadlock_prop: None };
+        let opts = ExploreOpts { bounds: job.bounds.clone(), all_points: false, deadline: t0 + share, max_execs: u64::MAX, keep_traces: 4, deadlock_prop: None, delay_mode: false };
         let r = run_scenarios(&job.scenarios, mon, &opts);
         let wall = t0.elapsed().as_secs_f64();
         frag.parts.push(json!({
@@ -452,4 +495,246 @@ pub fn run_scenarios(scs: &[Scenario], mon: Mon, opts: &ExploreOpts) -> MultiRes
         m.min_bound = -1;
     }
     m
+}
+
+// ---------------------------------------------------------------------------
+// C11: side-by-side systems really run in parallel
+// ---------------------------------------------------------------------------
+
+fn wide_stage(w: usize) -> Vec<Op> {
+    (0..w).map(|i| Op::Sys(crate::spec::SysSpec { name: format!("s{}", i), reads: vec![], writes: vec![], time: 3, deps: vec![] })).collect()
+}
+
+fn c11_scenarios(w: usize, n: usize) -> Vec<(String, Scenario)> {
+    let mut v = Vec::new();
+    let ids: Vec<usize> = (0..w).collect();
+    // top level, user-supplied pool / default pool, dispatch and async
+    for (label, user) in [("user-supplied pool", true), ("default pool", false)] {
+        for (mode, d) in [(Mode::Dispatch, 2u8), (Mode::Par, 1), (Mode::Async, 2)] {
+            let mut s = Scenario::plain(wide_stage(w), mode, d);
+            if user {
+                s.user_pool = Some(n);
+            } else {
+                s.default_threads = Some(n);
+            }
+            s.rendezvous = Some((ids.clone(), w as u16));
+            v.push((format!("{} / {} / width {} / {} threads", label, mode.label(), w, n), s));
+        }
+    }
+    // batch-inner stage
+    let inner = wide_stage(w);
+    let batch = vec![Op::Batch(crate::spec::BatchSpec { name: "b".into(), deps: vec![], ctrl: crate::spec::CtrlData::Unit, times: 1, multi: false, fetch_data: false, inner })];
+    let mut s = Scenario::plain(batch, Mode::Dispatch, 1);
+    s.user_pool = Some(n);
+    s.rendezvous = Some(((1..=w).collect(), w as u16));
+    v.push((format!("batch-inner stage / dispatch / width {} / {} threads", w, n), s));
+    v
+}
+
+pub fn run_c11(tier: Tier, budget: Duration, frag: &mut Frag) {
+    let q = tier == Tier::Quick;
+    let start = Instant::now();
+    let deadline = start + budget;
+    let mon = Mon::of("C04");
+    // (width, preemption bound or delay bound, delay mode)
+    let mut cfgs: Vec<(usize, u32, bool)> = vec![(2, 2, false), (3, 1, false)];
+    if q {
+        cfgs.extend([(4, 2, true), (6, 1, true), (8, 1, true)]);
+    } else {
+        cfgs.extend([(3, 2, false), (4, 1, false), (4, 3, true), (5, 2, true), (6, 2, true), (8, 2, true), (12, 1, true), (16, 1, true)]);
+    }
+    let mut neg_deadlocks = 0u64;
+    let mut neg_runs = 0u64;
+    for (w, bound, delay) in cfgs {
+        // positive: pool size >= width must never deadlock
+        for n in [w, w + 1] {
+            let scs: Vec<Scenario> = c11_scenarios(w, n).into_iter().map(|x| x.1).collect();
+            let opts = ExploreOpts { bounds: (0..=bound).collect(), all_points: false, deadline, max_execs: u64::MAX, keep_traces: 1, deadlock_prop: Some("C11"), delay_mode: delay };
+            let t0 = Instant::now();
+            let r = run_scenarios(&scs, mon, &opts);
+            frag.parts.push(json!({
+                "engine": "E2 schedmc", "scenarios": format!("rendezvous of {} side-by-side systems, pool of {} threads (user pool, default pool, async, batch-inner)", w, n),
+                "n_scenarios": scs.len(), "scenarios_completed": r.completed, "bound": bound, "bound_kind": if delay { "delay (all deviations)" } else { "preemptions" },
+                "schedules": r.executions, "states": r.nodes, "transitions": r.transitions, "deadlocks": r.deadlocks, "cap_hit": r.capped, "wall_s": t0.elapsed().as_secs_f64(),
+            }));
+            frag.states += r.nodes;
+            frag.transitions += r.transitions;
+            frag.exhaustive &= !r.capped;
+            if frag.samples.len() < 3 {
+                if let Some(s) = r.sample {
+                    frag.samples.push(s);
+                }
+            }
+            frag.e2_traces.extend(r.kept);
+            // C04 findings of the monitor are not C11's business, deadlocks are
+            let mut col = Collector::default();
+            for ((p, sg), (f, _)) in r.col.best {
+                if p == "C11" || p == "MACHINERY" {
+                    let _ = sg;
+                    col.add(f);
+                }
+            }
+            frag.col.merge(col);
+        }
+        // negative control: one thread too few must deadlock
+        if w >= 2 {
+            let scs: Vec<Scenario> = c11_scenarios(w, w - 1).into_iter().map(|x| x.1).collect();
+            let opts = ExploreOpts { bounds: vec![0], all_points: false, deadline, max_execs: 64, keep_traces: 0, deadlock_prop: Some("NEG"), delay_mode: true };
+            let r = run_scenarios(&scs, mon, &opts);
+            neg_runs += scs.len() as u64;
+            let dl = r.col.best.iter().filter(|((p, _), _)| p == "NEG").count() as u64;
+            // every scenario must have deadlocked
+            let per_scenario_deadlocks = r.deadlocks;
+            neg_deadlocks += per_scenario_deadlocks;
+            if per_scenario_deadlocks < scs.len() as u64 || dl == 0 {
+                frag.col.add(crate::report::Finding {
+                    prop: "MACHINERY".into(),
+                    sig: "c11-negative-control-did-not-deadlock".into(),
+                    msg: format!("width {} with a pool of {} threads deadlocked in only {} of {} scenarios: the check is vacuous", w, w - 1, per_scenario_deadlocks, scs.len()),
+                    replay: json!({}),
+                    size: 0,
+                });
+            }
+        }
+    }
+    frag.extra.insert("negative_control".into(), json!({"scenarios_with_one_thread_too_few": neg_runs, "deadlocks_observed": neg_deadlocks}));
+    frag.assumptions.push("finite-capacity pool model: a closure holds a slot while it runs and gives it up while blocked in a nested for_each/join/install (rayon's steal-while-waiting)".into());
+}
+
+// ---------------------------------------------------------------------------
+// C15: async dispatcher scripts
+// ---------------------------------------------------------------------------
+
+fn scripts(alpha: &[char], max_len: usize) -> Vec<String> {
+    let mut out: Vec<String> = vec![];
+    let mut frontier: Vec<String> = vec![String::new()];
+    for _ in 0..max_len {
+        let mut next = vec![];
+        for f in &frontier {
+            for a in alpha {
+                let mut s = f.clone();
+                s.push(*a);
+                next.push(s);
+            }
+        }
+        out.extend(next.iter().cloned());
+        frontier = next;
+    }
+    out
+}
+
+pub fn run_c15(tier: Tier, budget: Duration, frag: &mut Frag) {
+    let q = tier == Tier::Quick;
+    let sy = |n: &str, r: &[u8], w: &[u8], deps: &[&str]| Op::Sys(crate::spec::SysSpec { name: n.into(), reads: r.to_vec(), writes: w.to_vec(), time: 3, deps: deps.iter().map(|s| s.to_string()).collect() });
+    let tl = || Op::Tl(crate::spec::SysSpec { name: String::new(), reads: vec![], writes: vec![0], time: 3, deps: vec![] });
+    let plans: Vec<(&str, Vec<Op>)> = vec![
+        ("one system", vec![sy("a", &[], &[0], &[])]),
+        ("two side by side", vec![sy("a", &[], &[0], &[]), sy("b", &[], &[1], &[])]),
+        ("two stages", vec![sy("a", &[], &[0], &[]), sy("b", &[0], &[], &["a"])]),
+        ("one system + thread-local", vec![sy("a", &[], &[0], &[]), tl()]),
+        ("two stages + thread-local", vec![sy("a", &[], &[1], &[]), tl(), sy("b", &[], &[1], &[])]),
+        ("three systems in two stages", vec![sy("a", &[], &[0], &[]), sy("b", &[], &[1], &[]), sy("c", &[0, 1], &[], &[])]),
+    ];
+    let alpha = ['D', 'R', 'W', 'X', 'O', 'M', 'S'];
+    let start = Instant::now();
+    let jobs: Vec<(usize, Vec<u32>, usize)> = if q {
+        // (script length, bounds, number of plans used)
+        vec![(3, vec![0, 1, 2], 2), (3, vec![0, 1], 6), (4, vec![0, 1], 1)]
+    } else {
+        vec![(3, vec![0, 1, 2, 3], 6), (4, vec![0, 1, 2], 6), (5, vec![0, 1], 3), (5, vec![0, 1, 2], 1)]
+    };
+    let njobs = jobs.len();
+    for (k, (len, bounds, nplans)) in jobs.into_iter().enumerate() {
+        let mut scs = Vec::new();
+        for (_, p) in plans.iter().take(nplans) {
+            for s in scripts(&alpha, len) {
+                // scripts without any dispatch are covered once (length <= 2)
+                if !s.contains('D') && s.len() > 2 {
+                    continue;
+                }
+                let mut sc = Scenario::plain(p.clone(), Mode::Async, 0);
+                sc.script = Some(s);
+                scs.push(sc);
+            }
+        }
+        let remaining = budget.saturating_sub(start.elapsed());
+        let share = remaining / (njobs - k) as u32;
+        let t0 = Instant::now();
+        let opts = ExploreOpts { bounds: bounds.clone(), all_points: false, deadline: t0 + share, max_execs: u64::MAX, keep_traces: 2, deadlock_prop: Some("C15"), delay_mode: false };
+        let r = run_scenarios(&scs, Mon::default(), &opts);
+        frag.parts.push(json!({
+            "engine": "E2 schedmc",
+            "scenarios": format!("every script of length <= {} over {{dispatch, running, wait, wait_without_tl, world, world_mut, setup}} (+ final world()) x {} background plans", len, nplans),
+            "n_scenarios": scs.len(), "scenarios_completed": r.completed, "preemption_bounds": bounds, "min_bound_completed": r.min_bound,
+            "schedules": r.executions, "states": r.nodes, "transitions": r.transitions, "distinct_event_traces": r.traces, "deadlocks": r.deadlocks, "cap_hit": r.capped, "wall_s": t0.elapsed().as_secs_f64(),
+        }));
+        frag.states += r.nodes;
+        frag.transitions += r.transitions;
+        frag.exhaustive &= !r.capped;
+        if let Some(s) = r.sample {
+            if frag.samples.len() < 4 {
+                frag.samples.push(s);
+            }
+        }
+        frag.e2_traces.extend(r.kept);
+        frag.col.merge(r.col);
+    }
+}
+
+// ---------------------------------------------------------------------------
+// C16: Par/Seq trees
+// ---------------------------------------------------------------------------
+
+pub fn run_c16(tier: Tier, budget: Duration, frag: &mut Frag) {
+    use crate::parseq::*;
+    let q = tier == Tier::Quick;
+    let alpha: Vec<(Vec<u8>, Vec<u8>)> = acc(&[(&[], &[]), (&[0], &[]), (&[], &[0]), (&[1], &[]), (&[], &[1])]);
+    let alpha9: Vec<(Vec<u8>, Vec<u8>)> = acc(&[(&[], &[]), (&[0], &[]), (&[], &[0]), (&[1], &[]), (&[], &[1]), (&[0, 1], &[]), (&[0], &[1]), (&[1], &[0]), (&[], &[0, 1])]);
+    // static part
+    let t0 = Instant::now();
+    let (cases, panics) = check_par_with(&alpha9, &mut frag.col);
+    frag.parts.push(json!({"engine":"E1-style enumeration","what":"Par::with (debug assertions on): every pair / triple of children over the 9-element two-resource alphabet incl. nested seq/par children",
+        "cases": cases, "cases_that_panicked": panics, "wall_s": t0.elapsed().as_secs_f64()}));
+    frag.states += cases;
+    frag.transitions += cases;
+    // run-time part
+    let start = Instant::now();
+    let alpha3: Vec<(Vec<u8>, Vec<u8>)> = acc(&[(&[0], &[]), (&[], &[0]), (&[], &[1])]);
+    let jobs: Vec<(usize, usize, usize, Vec<u32>, bool, bool)> = if q {
+        // (max leaves, depth, fan-out, bounds, both dispatch sites, small alphabet)
+        vec![(2, 2, 2, vec![0, 1, 2], true, false), (3, 2, 3, vec![0, 1], true, true), (4, 2, 4, vec![0], false, true)]
+    } else {
+        vec![(2, 3, 2, vec![0, 1, 2, 3], true, false), (3, 3, 3, vec![0, 1, 2], true, true), (4, 3, 4, vec![0, 1], true, true), (5, 3, 5, vec![0], false, true), (3, 5, 3, vec![0, 1], false, false)]
+    };
+    let njobs = jobs.len();
+    for (k, (leaves, depth, fan, bounds, both, small)) in jobs.into_iter().enumerate() {
+        let ts = trees(leaves, depth, fan, if small { &alpha3 } else { &alpha }, true);
+        let mut items = Vec::new();
+        for t in &ts {
+            items.push((t.clone(), false, 1u8));
+            if both {
+                items.push((t.clone(), true, if t.leaves() <= 2 { 2 } else { 1 }));
+            }
+        }
+        let remaining = budget.saturating_sub(start.elapsed());
+        let share = remaining / (njobs - k) as u32;
+        let t0 = Instant::now();
+        let (st, col, samples, kept) = explore_trees(items, bounds.clone(), t0 + share, threads());
+        frag.parts.push(json!({
+            "engine": "E2 schedmc",
+            "scenarios": format!("every par/seq tree with <= {} leaves, depth <= {}, fan-out <= {}, par-compatible leaf access over a {}-element alphabet; dispatched from outside{} the pool", leaves, depth, fan, if small { 3 } else { 5 }, if both { " and inside" } else { "" }),
+            "n_scenarios": st.trees, "scenarios_completed": st.completed, "preemption_bounds": bounds, "min_bound_completed": st.min_bound,
+            "schedules": st.executions, "states": st.nodes, "transitions": st.transitions, "distinct_event_traces": st.traces,
+            "trees_with_a_par_node_of_2+_children": st.par_trees, "of_which_showed_overlapping_children": st.overlapping_par_trees,
+            "cap_hit": st.capped, "wall_s": t0.elapsed().as_secs_f64(),
+        }));
+        frag.states += st.nodes;
+        frag.transitions += st.transitions;
+        frag.exhaustive &= !st.capped;
+        if frag.samples.len() < 4 {
+            frag.samples.extend(samples.into_iter().take(2));
+        }
+        frag.e2_traces.extend(kept);
+        frag.col.merge(col);
+    }
 }
